@@ -48,14 +48,12 @@ impl GenOut {
             return DiagClass::None;
         }
         let d = &self.diag;
-        if d.contains("Conflict detected") || d.contains("Local ambiguity detected") || d.contains("Ambiguous grammar detected") || d.contains("ambiguity detected") && !d.contains("between the terminal") {
-            if d.contains("ambiguity detected between the terminal") {
-                return DiagClass::LexAmbiguity;
-            }
-            return DiagClass::LrConflict;
-        }
         if d.contains("ambiguity detected between the terminal") {
             return DiagClass::LexAmbiguity;
+        }
+        // the four headings of lr1/error/mod.rs
+        if d.contains("Conflict detected") || d.contains("Local ambiguity detected") || d.contains("Ambiguous grammar detected") || d.contains("Multiple productions for the same reduction") {
+            return DiagClass::LrConflict;
         }
         DiagClass::Other
     }
